@@ -421,6 +421,7 @@ pub fn c01_oracle_class<S: Src>(s: &mut S, class: u8) {
     };
     let (n, a) = draw_legal(s, class, oi, addr, avr8l);
     let e = ref_encode(&op, &a[..n], addr, avr8l);
+    cov!(e.is_some(), "!legal tuple encoded by the reference");
     chk!(s, e.is_some(), "oracle: legal tuple encodes");
     if let Some(e) = e {
         let d = ref_decode(e.w0, e.w1, avr8l);
